@@ -53,6 +53,11 @@ fn main() {
         let only = args.get(6).and_then(|s| s.parse().ok());
         std::process::exit(e6::child(&args[2], args[3].parse().unwrap_or(0), args[4].parse().unwrap_or(1), &args[5], only));
     }
+    if args.len() >= 2 && args[1] == "C17-free" {
+        let light = args.get(2).map_or(true, |a| a != "full");
+        let rounds = args.get(3).and_then(|a| a.parse().ok()).unwrap_or(1);
+        std::process::exit(e5::free_main(light, rounds));
+    }
     if args.len() >= 2 && args[1] == "C15-selftest-oob" {
         std::process::exit(e6::selftest_oob());
     }
